@@ -13,12 +13,14 @@ package main
 import (
 	"context"
 	"encoding/json"
+	"errors"
 	"fmt"
 	"hash/fnv"
 	"math/rand"
 	"os"
 	"reflect"
 	"sort"
+	"sync"
 	"strings"
 	"time"
 
@@ -219,8 +221,9 @@ const (
 type gatingCase struct {
 	M    methodRec
 	Cls  string
-	Body string
-	V    int // which concrete subject / claimed identity of the class (added by the check)
+	Body  string
+	Fault string // what the DHT does to the lookup of the caller's client record: none | retry | fatal
+	V     int    // which concrete subject / claimed identity of the class (added by the check)
 }
 
 type gatingObs struct {
@@ -332,6 +335,20 @@ func runGating(w *world) {
 			servers: []*protocol.Node{w.self.Tunnel, a2.Tunnel}, proof: w.proof, r: r}, 0)
 		w.dnsOK(victimCustom, V)
 
+		if c.Fault != "" && c.Fault != "none" && cl.cert != nil {
+			var id *pki.Identity
+			var ierr error
+			if panicFree(func() { id, ierr = pki.ExtractCertificateIdentity(cl.cert) }) && ierr == nil && id != nil {
+				ferr := error(chord.ErrKVStaleOwnership)
+				if c.Fault == "retry" && c.V%2 == 1 {
+					ferr = chord.ErrKVPendingTransfer
+				}
+				if c.Fault == "fatal" {
+					ferr = errors.New("verif: storage failure")
+				}
+				w.node.setGetFault(tun.ClientTokenKey(&protocol.ClientToken{Token: id.Token}), ferr)
+			}
+		}
 		before := w.node.snapshot()
 		w.node.takeMuts()
 		var (
@@ -345,6 +362,7 @@ func runGating(w *world) {
 			_, err, panicked = w.invoke(c.M.Svc, c.M.Name, false, ctx, req)
 			cancel()
 		}
+		w.node.setGetFault("", nil)
 		after := w.node.snapshot()
 		diff := diffSnap(before, after)
 		o := gatingObs{Refused: err != nil || panicked != "", Code: errCode(err, panicked), KVChanged: len(diff) > 0,
@@ -613,110 +631,127 @@ func (p *pubWorld) project() *stateP {
 	return s
 }
 
+// newPubWorld: a fresh store with the destination records of a1..a4, both clients registered through the API
+func newPubWorld(w *world) *pubWorld {
+	w.freshStore()
+	p := &pubWorld{w: w, clients: map[string]*client{}, srv: map[string]*srvRec{"a1": w.self}, nodes: map[string]*protocol.Node{},
+		real: map[string]string{}, leases: map[string]uint64{}}
+	for k := 2; k <= 5; k++ {
+		sym := fmt.Sprintf("a%d", k)
+		p.srv[sym] = &srvRec{Sym: sym,
+			Chord:  &protocol.Node{Id: uint64(k) << 40, Address: fmt.Sprintf("chord-a%d.internal:7946", k)},
+			Tunnel: &protocol.Node{Id: uint64(900000 + k), Address: fmt.Sprintf("tun-a%d.example.net:443", k)}}
+		if k <= 4 {
+			w.putDestination(p.srv[sym], true, true)
+		}
+	}
+	a5 := p.srv["a5"]
+	delete(p.srv, "a5") // no record: nothing may ever point to it
+	p.nodes = map[string]*protocol.Node{
+		"n1": w.self.Tunnel, "n2": p.srv["a2"].Tunnel, "n3": p.srv["a3"].Tunnel,
+		"n3b": {Id: 777777, Address: p.srv["a3"].Tunnel.GetAddress()}, // same endpoint, another claimed id
+		"n4":  p.srv["a4"].Tunnel, "n5": a5.Tunnel,
+	}
+	p.clients["A"] = w.v1Client("A", 2001, "tokA-77e1")
+	p.clients["B"] = w.v2Client("B", 2002, []byte("fedcba9876543210fedcba9876543210"))
+	p.real = map[string]string{"g1": "never-generated-g1", "g2": "never-generated-g2", "x1": "x1.customer-site.org"}
+	// both clients register through the API
+	for _, name := range []string{"A", "B"} {
+		c := p.clients[name]
+		w.tp.setCaller(caller{cert: c.Cert, claimed: c.Verified})
+		ctx, cancel := w.callCtx()
+		if _, err := w.cli.RegisterIdentity(ctx, &protocol.RegisterIdentityRequest{}); err != nil {
+			fmt.Fprintf(os.Stderr, "setup: RegisterIdentity(%s): %v\n", name, err)
+			verifkit.Flush()
+			os.Exit(4)
+		}
+		cancel()
+	}
+	return p
+}
+
+// do issues one request of a history through the real twirp client
+func (p *pubWorld) do(k call, r *rand.Rand) stepObs {
+	w := p.w
+	so := stepObs{Call: call{Op: k.Op, C: k.C, H: k.H, Servers: k.Servers}}
+	c := p.clients[k.C]
+	other := p.clients["A"]
+	if k.C == "A" {
+		other = p.clients["B"]
+	}
+	cl := caller{cert: c.Cert, claimed: c.Verified}
+	so.Spoof = k.Spoof
+	if so.Spoof == "" {
+		so.Spoof = []string{"none", "other", "other", "junk"}[r.Intn(4)]
+	}
+	switch so.Spoof { // what the peer claims to be must not matter
+	case "other":
+		cl.claimed = other.Verified
+	case "junk":
+		cl.claimed = &protocol.Node{Id: 424242, Address: "evil.example:1", Rendezvous: true}
+	}
+	w.tp.setCaller(cl)
+	ctx, cancel := w.callCtx()
+	var err error
+	real := p.real[k.H]
+	so.Real = real
+	switch k.Op {
+	case "generate":
+		var resp *protocol.GenerateHostnameResponse
+		resp, err = w.cli.GenerateHostname(ctx, &protocol.GenerateHostnameRequest{})
+		if err == nil {
+			p.real[k.H] = resp.GetHostname()
+			so.Real = resp.GetHostname()
+		}
+	case "validate":
+		w.dnsOK(real, c) // the owner of the domain points the challenge record at the caller's token
+		_, err = w.cli.AcmeValidate(ctx, &protocol.ValidateRequest{Hostname: real, Proof: w.proof(real)})
+	case "publish":
+		_, err = w.cli.PublishTunnel(ctx, &protocol.PublishTunnelRequest{Hostname: real, Servers: p.servers(k.Servers)})
+	case "unpublish":
+		_, err = w.cli.UnpublishTunnel(ctx, &protocol.UnpublishTunnelRequest{Hostname: real})
+	case "release":
+		_, err = w.cli.ReleaseTunnel(ctx, &protocol.ReleaseTunnelRequest{Hostname: real})
+	case "hold": // another server holds the client's lease
+		so.Spoof = "-"
+		var tok uint64
+		tok, err = w.node.store().Acquire(w.ctx, []byte(tun.ClientLeaseKey(c.tok())), 60*time.Second)
+		p.leases[k.C] = tok
+	case "unhold":
+		so.Spoof = "-"
+		err = w.node.store().Release(w.ctx, []byte(tun.ClientLeaseKey(c.tok())), p.leases[k.C])
+	default:
+		panic("op " + k.Op)
+	}
+	cancel()
+	so.Ok = err == nil
+	so.Code = errCode(err, "")
+	if err != nil {
+		so.Msg = err.Error()
+		if len(so.Msg) > 120 {
+			so.Msg = so.Msg[:120]
+		}
+	}
+	return so
+}
+
+func (p *pubWorld) servers(syms []string) []*protocol.Node {
+	servers := make([]*protocol.Node, len(syms))
+	for j, s := range syms {
+		servers[j] = p.nodes[s]
+	}
+	return servers
+}
+
 func runPublish(w *world) {
 	r := verifkit.Rand(26)
 	verifkit.EachCase(func(i int, raw json.RawMessage) {
 		wk := verifkit.Decode[walk](raw)
-		w.freshStore()
-		p := &pubWorld{w: w, clients: map[string]*client{}, srv: map[string]*srvRec{"a1": w.self}, nodes: map[string]*protocol.Node{},
-			real: map[string]string{}, leases: map[string]uint64{}}
-		for k := 2; k <= 5; k++ {
-			sym := fmt.Sprintf("a%d", k)
-			p.srv[sym] = &srvRec{Sym: sym,
-				Chord:  &protocol.Node{Id: uint64(k) << 40, Address: fmt.Sprintf("chord-a%d.internal:7946", k)},
-				Tunnel: &protocol.Node{Id: uint64(900000 + k), Address: fmt.Sprintf("tun-a%d.example.net:443", k)}}
-			if k <= 4 {
-				w.putDestination(p.srv[sym], true, true)
-			}
-		}
-		a5 := p.srv["a5"]
-		delete(p.srv, "a5") // no record: nothing may ever point to it
-		p.nodes = map[string]*protocol.Node{
-			"n1": w.self.Tunnel, "n2": p.srv["a2"].Tunnel, "n3": p.srv["a3"].Tunnel,
-			"n3b": {Id: 777777, Address: p.srv["a3"].Tunnel.GetAddress()}, // same endpoint, another claimed id
-			"n4":  p.srv["a4"].Tunnel, "n5": a5.Tunnel,
-		}
-		p.clients["A"] = w.v1Client("A", 2001, "tokA-77e1")
-		p.clients["B"] = w.v2Client("B", 2002, []byte("fedcba9876543210fedcba9876543210"))
-		p.real = map[string]string{"g1": "never-generated-g1", "g2": "never-generated-g2", "x1": "x1.customer-site.org"}
-		// both clients register through the API
-		for _, name := range []string{"A", "B"} {
-			c := p.clients[name]
-			w.tp.setCaller(caller{cert: c.Cert, claimed: c.Verified})
-			ctx, cancel := w.callCtx()
-			if _, err := w.cli.RegisterIdentity(ctx, &protocol.RegisterIdentityRequest{}); err != nil {
-				fmt.Fprintf(os.Stderr, "setup: RegisterIdentity(%s): %v\n", name, err)
-				verifkit.Flush()
-				os.Exit(4)
-			}
-			cancel()
-		}
+		p := newPubWorld(w)
 		obs := walkObs{Init: p.project()}
 		prev := must(json.Marshal(obs.Init))
 		for _, k := range wk.Steps {
-			so := stepObs{Call: call{Op: k.Op, C: k.C, H: k.H, Servers: k.Servers}}
-			c := p.clients[k.C]
-			other := p.clients["A"]
-			if k.C == "A" {
-				other = p.clients["B"]
-			}
-			cl := caller{cert: c.Cert, claimed: c.Verified}
-			so.Spoof = k.Spoof
-			if so.Spoof == "" {
-				so.Spoof = []string{"none", "other", "other", "junk"}[r.Intn(4)]
-			}
-			switch so.Spoof { // what the peer claims to be must not matter
-			case "other":
-				cl.claimed = other.Verified
-			case "junk":
-				cl.claimed = &protocol.Node{Id: 424242, Address: "evil.example:1", Rendezvous: true}
-			}
-			w.tp.setCaller(cl)
-			ctx, cancel := w.callCtx()
-			var err error
-			real := p.real[k.H]
-			so.Real = real
-			switch k.Op {
-			case "generate":
-				var resp *protocol.GenerateHostnameResponse
-				resp, err = w.cli.GenerateHostname(ctx, &protocol.GenerateHostnameRequest{})
-				if err == nil {
-					p.real[k.H] = resp.GetHostname()
-					so.Real = resp.GetHostname()
-				}
-			case "validate":
-				w.dnsOK(real, c) // the owner of the domain points the challenge record at the caller's token
-				_, err = w.cli.AcmeValidate(ctx, &protocol.ValidateRequest{Hostname: real, Proof: w.proof(real)})
-			case "publish":
-				servers := make([]*protocol.Node, len(k.Servers))
-				for j, s := range k.Servers {
-					servers[j] = p.nodes[s]
-				}
-				_, err = w.cli.PublishTunnel(ctx, &protocol.PublishTunnelRequest{Hostname: real, Servers: servers})
-			case "unpublish":
-				_, err = w.cli.UnpublishTunnel(ctx, &protocol.UnpublishTunnelRequest{Hostname: real})
-			case "release":
-				_, err = w.cli.ReleaseTunnel(ctx, &protocol.ReleaseTunnelRequest{Hostname: real})
-			case "hold": // another server holds the client's lease
-				so.Spoof = "-"
-				var tok uint64
-				tok, err = w.node.store().Acquire(w.ctx, []byte(tun.ClientLeaseKey(c.tok())), 60*time.Second)
-				p.leases[k.C] = tok
-			case "unhold":
-				so.Spoof = "-"
-				err = w.node.store().Release(w.ctx, []byte(tun.ClientLeaseKey(c.tok())), p.leases[k.C])
-			default:
-				panic("op " + k.Op)
-			}
-			cancel()
-			so.Ok = err == nil
-			so.Code = errCode(err, "")
-			if err != nil {
-				so.Msg = err.Error()
-				if len(so.Msg) > 120 {
-					so.Msg = so.Msg[:120]
-				}
-			}
+			so := p.do(k, r)
 			post := p.project()
 			cur := must(json.Marshal(post))
 			if string(cur) != string(prev) {
@@ -726,6 +761,194 @@ func runPublish(w *world) {
 			obs.Steps = append(obs.Steps, so)
 		}
 		verifkit.Answer(i, obs)
+	})
+}
+
+// ---------------------------------------------------------------------------------------------
+// C26, racing requests.  Two requests run on the handlers at the same time; every DHT operation of a marked request
+// passes the gate of the fake node.  The operations of the outer request run one at a time; before its n-th operation the
+// whole inner request runs (n = 1 .. number of operations + 1, the last position being "after the outer request returned").
+// Every operation is recorded (request, operation, key class, result): the recording is validated against
+// spec/TunnelRace.tla, the outcome is judged by the statement (TunnelCtl family race_obs).
+
+type raceTag struct{}
+
+type raceEvent struct {
+	R   int    `json:"r"` // 1 = outer, 2 = inner
+	A   string `json:"a"` // acq chk look put del prm rmc rel | ret
+	I   int    `json:"i"` // slot of put / del
+	Res string `json:"res"`
+	Raw string `json:"raw,omitempty"` // operation and key when the class is unknown
+}
+
+type racer struct {
+	mu      sync.Mutex // serialises the operations of the outer request
+	recMu   sync.Mutex
+	at      int
+	count   int
+	fired   bool
+	inner   func()
+	events  []raceEvent
+	classOf func(op string, key []byte) (string, int)
+}
+
+func (g *racer) record(e raceEvent) {
+	g.recMu.Lock()
+	g.events = append(g.events, e)
+	g.recMu.Unlock()
+}
+
+// enter is called by the fake node before an operation of a marked request; the returned function takes the result
+func (g *racer) enter(tag int, op string, key []byte) func(res string) {
+	a, i := g.classOf(op, key)
+	raw := ""
+	if a == "?" {
+		raw = op + " " + string(key)
+	}
+	if tag == 1 {
+		g.mu.Lock()
+		g.count++
+		if g.count == g.at && !g.fired {
+			g.fired = true
+			g.inner()
+		}
+		return func(res string) {
+			g.record(raceEvent{R: 1, A: a, I: i, Res: res, Raw: raw})
+			g.mu.Unlock()
+		}
+	}
+	return func(res string) { g.record(raceEvent{R: 2, A: a, I: i, Res: res, Raw: raw}) }
+}
+
+type raceCase struct {
+	Setup []call `json:"setup"`
+	Outer call   `json:"outer"`
+	Inner call   `json:"inner"`
+}
+
+type raceRun struct {
+	At      int         `json:"at"`
+	Before  string      `json:"before"` // the operation of the outer request before which the inner request ran
+	Pre     *stateP     `json:"pre"`
+	Post    *stateP     `json:"post"`
+	OuterOk bool        `json:"outerOk"`
+	InnerOk bool        `json:"innerOk"`
+	Codes   [2]string   `json:"codes"`
+	Events  []raceEvent `json:"events"`
+}
+
+func (p *pubWorld) direct(tag int, k call) error {
+	w := p.w
+	c := p.clients[k.C]
+	d := &transport.StreamDelegate{Identity: c.Verified, Certificate: c.Cert, Kind: protocol.Stream_RPC}
+	ctx, cancel := context.WithTimeout(context.WithValue(rpc.WithDelegation(w.ctx, d), raceTag{}, tag), 20*time.Second)
+	defer cancel()
+	real := p.real[k.H]
+	var err error
+	switch k.Op {
+	case "publish":
+		_, err = w.srv.PublishTunnel(ctx, &protocol.PublishTunnelRequest{Hostname: real, Servers: p.servers(k.Servers)})
+	case "unpublish":
+		_, err = w.srv.UnpublishTunnel(ctx, &protocol.UnpublishTunnelRequest{Hostname: real})
+	case "release":
+		_, err = w.srv.ReleaseTunnel(ctx, &protocol.ReleaseTunnelRequest{Hostname: real})
+	default:
+		panic("race op " + k.Op)
+	}
+	return err
+}
+
+func runRace(w *world) {
+	r := verifkit.Rand(27)
+	verifkit.EachCase(func(i int, raw json.RawMessage) {
+		rc := verifkit.Decode[raceCase](raw)
+		runs := []raceRun{}
+		for at := 1; ; at++ {
+			p := newPubWorld(w)
+			for _, k := range rc.Setup {
+				k.Spoof = "none"
+				if so := p.do(k, r); !so.Ok {
+					fmt.Fprintf(os.Stderr, "race setup: %s failed: %s %s\n", k.Op, so.Code, so.Msg)
+					verifkit.Flush()
+					os.Exit(4)
+				}
+			}
+			run := raceRun{At: at, Pre: p.project()}
+			g := &racer{at: at}
+			oc, ic := p.clients[rc.Outer.C], p.clients[rc.Inner.C]
+			g.classOf = func(op string, key []byte) (string, int) {
+				k := string(key)
+				for _, c := range []*client{oc, ic} {
+					switch {
+					case k == tun.ClientLeaseKey(c.tok()) && op == "Acquire":
+						return "acq", 0
+					case k == tun.ClientLeaseKey(c.tok()) && op == "Release":
+						return "rel", 0
+					case k == tun.ClientHostnamesPrefix(c.tok()) && op == "PrefixContains":
+						return "chk", 0
+					case k == tun.ClientHostnamesPrefix(c.tok()) && op == "PrefixRemove":
+						return "prm", 0
+					}
+				}
+				for _, h := range []string{rc.Outer.H, rc.Inner.H} {
+					for s := 1; s <= 3; s++ {
+						if k == tun.RoutingKey(p.real[h], s) && op == "Put" {
+							return "put", s
+						}
+						if k == tun.RoutingKey(p.real[h], s) && op == "Delete" {
+							return "del", s
+						}
+					}
+					if k == tun.CustomHostnameKey(p.real[h]) && op == "Delete" {
+						return "rmc", 0
+					}
+				}
+				if op == "Get" {
+					for _, n := range p.nodes {
+						if k == tun.DestinationByTunnelKey(n) {
+							return "look", 0
+						}
+					}
+				}
+				return "?", 0
+			}
+			g.inner = func() {
+				err := p.direct(2, rc.Inner)
+				run.InnerOk = err == nil
+				run.Codes[1] = errCode(err, "")
+				g.record(raceEvent{R: 2, A: "ret", Res: fmt.Sprint(err == nil)})
+			}
+			w.node.setRacer(g)
+			err := p.direct(1, rc.Outer)
+			run.OuterOk = err == nil
+			run.Codes[0] = errCode(err, "")
+			g.record(raceEvent{R: 1, A: "ret", Res: fmt.Sprint(err == nil)})
+			last := !g.fired
+			if last { // the position after the last operation: the inner request follows the outer one
+				g.fired = true
+				g.inner()
+				run.Before = "end"
+			}
+			w.node.setRacer(nil)
+			if !last {
+				n := 0
+				for _, e := range g.events {
+					if e.R == 1 && e.A != "ret" {
+						n++
+						if n == at {
+							run.Before = e.A
+						}
+					}
+				}
+			}
+			run.Events = g.events
+			run.Post = p.project()
+			runs = append(runs, run)
+			if last || at > 40 {
+				break
+			}
+		}
+		verifkit.Answer(i, runs)
 	})
 }
 
@@ -748,6 +971,8 @@ func main() {
 		runGetNodes(newWorld(), mode)
 	case "publish":
 		runPublish(newWorld())
+	case "race":
+		runRace(newWorld())
 	default:
 		fmt.Fprintln(os.Stderr, "unknown mode", os.Args[1])
 		os.Exit(2)
